@@ -362,15 +362,37 @@ def type_roles(repo, res):
     f = lm.func("merge_dtypes")
     key = f"{f.key}:promotion"
     res.ob(key)
-    order = re.findall(r"if DataType\.(\w+) in dtypes:\s+return DataType\.(\w+)", ast.unparse(f.node))
-    if order != [("SCALAR", "SCALAR"), ("REAL", "REAL"), ("INT", "INT"), ("BOOL", "BOOL")]:
-        res.fail(key, f"merge_dtypes promotes in the order {order}; expected SCALAR > REAL > INT > BOOL", lm.line(f.node))
-    # literal dtypes
+    import itertools as _it
+
+    from ..absint import Interp as _I, Raised as _R
+
+    it_ = _I(repo, classes if "classes" in dir() else load_classes(repo))
+    lattice = ["DataType.BOOL", "DataType.INT", "DataType.REAL", "DataType.SCALAR"]
+    bad = None
+    for n_ in (1, 2, 3):
+        for combo in _it.product(lattice, repeat=n_):
+            try:
+                got = it_.call_f(f, [list(combo)])
+            except _R as e:
+                got = f"raises {e.what}"
+            if got != max(combo, key=lattice.index):
+                bad = (combo, got)
+                break
+        if bad:
+            break
+    if bad:
+        res.fail(key, f"merge_dtypes({[c.split('.')[1] for c in bad[0]]}) = {bad[1]}; expected the join in BOOL < INT < REAL < SCALAR", lm.line(f.node))
+    # literal dtypes (constructor interpreted)
     key = f"{LNODES}:LiteralFloat:dtype"
     res.ob(key)
-    s = ast.unparse(lm.func("LiteralFloat.__init__").node)
-    if not re.search(r"if isinstance\(value, complex\):\s+self\.dtype = DataType\.SCALAR\s+else:\s+self\.dtype = DataType\.REAL", s):
-        res.fail(key, "LiteralFloat: complex literals must be SCALAR, real ones REAL", lm.rel)
+    try:
+        d_real = it_.construct("LiteralFloat", [2.5], {}).f.get("dtype")
+        d_cplx = it_.construct("LiteralFloat", [complex(1.0, 2.0)], {}).f.get("dtype")
+        d_int = it_.construct("LiteralInt", [3], {}).f.get("dtype")
+    except _R as e:
+        d_real = d_cplx = d_int = f"raises {e.what}"
+    if (d_real, d_cplx, d_int) != ("DataType.REAL", "DataType.SCALAR", "DataType.INT"):
+        res.fail(key, f"literal types are (float, complex, int) -> ({d_real}, {d_cplx}, {d_int}); complex literals must be SCALAR, real ones REAL, integers INT", lm.rel)
     # formatter dtype names
     for be in ("C", "numba"):
         fm = repo.mod(f"ffcx.codegeneration.{be}.formatter")
